@@ -1,3 +1,4 @@
 REGISTRY = {
+    "C01": "c01_liveset",
     "C04": "c04_store",
 }
